@@ -253,6 +253,14 @@ class RangeExec:
         # a function of the package: by contract
         q = self.resolve(n.func)
         c = self.contracts.get(q) if q else None
+        if c is None and q is not None and not self.prog.wrapped_by(q) and getattr(self, 'depth', 0) < 6:
+            # a helper of the package without a range contract: its real body is evaluated in place over the argument ranges
+            fd, md = self.prog.func(q)
+            if len(fd.args.args) == len(args) and not fd.args.defaults:
+                sub = RangeExec(self.prog, self.contracts, q); sub.obls = self.obls; sub.depth = getattr(self, 'depth', 0) + 1
+                r = sub.block(fd.body, {a.arg: v for a, v in zip(fd.args.args, args)}, quiet)
+                if r is None: raise Unsupported(f'{f} returns nothing')
+                return r
         if c is None: raise Unsupported(f'call of {f} (no range contract)')
         fn, _ = self.prog.func(q)
         names = [a.arg for a in fn.args.args]
